@@ -158,6 +158,14 @@ class BoolVal:
         return f"Bool({self.desc})"
 
 
+class NeedFork(Exception):
+    """Raised by the evaluator when a condition has to be decided both ways; the interpreter re-runs the statement."""
+
+    def __init__(self, node: ast.AST, cond: "BoolVal") -> None:
+        self.node = node
+        self.cond = cond
+
+
 class CallRec:
     """A call seen on a path with its abstract argument values (for provenance rules)."""
 
@@ -700,6 +708,13 @@ class Evaluator:
         c = self.truth(self.eval(e.test, st), e.test, st)
         if isinstance(c, bool):
             return self.eval(e.body if c else e.orelse, st)
+        # an undecided conditional expression anywhere in a statement: the interpreter runs the statement once per outcome
+        decisions = getattr(st, "decisions", None)
+        if decisions is not None and isinstance(c, BoolVal):
+            d = decisions.get(id(e))
+            if d is None:
+                raise NeedFork(e, c)
+            return self.eval(e.body if d else e.orelse, st)
         return ("ifexp", c, e)
 
     def e_BoolOp(self, e: ast.BoolOp, st: State) -> t.Any:
